@@ -5,6 +5,7 @@ while a job of a queue is in the hands of a runner no queued job of that queue i
 -/
 import DesyncModel.Inv.JobProj
 import DesyncModel.Inv.JobAbs
+import DesyncModel.Inv.OrderAbs
 import DesyncModel.Inv.JobWf
 
 namespace Desync
@@ -176,5 +177,178 @@ theorem heldExcl_of {s : State} (hh : HolderInv s) (hw : WfInv s) (h : JobInv s)
   subst ha
   rw [r1] at r2
   simpa using congrArg Prod.fst (Option.some.inj r2)
+
+
+/-! ### the job invariant together with the order invariant -/
+
+abbrev OrderInv (s : State) : Prop := OrderInvF s.jobPQ s.qjobs s.jobB s.jobE s.jobs.length
+
+structure FullInv (s : State) : Prop where
+  job : JobInv s
+  ord : OrderInv s
+
+theorem FullInv.run1 {s : State} (h : FullInv s) : ∀ a j q, (s.pcAt a).runningQ = some (j, q) → s.jobPQ j = some (.held a, q) := h.job.run1
+theorem FullInv.run2 {s : State} (h : FullInv s) : ∀ a j q, s.jobPQ j = some (.held a, q) → (s.pcAt a).runningQ = some (j, q) := h.job.run2
+theorem FullInv.queued {s : State} (h : FullInv s) : ∀ q l j, s.qjobs q = some l → j ∈ l → s.jobPQ j = some (.queued, q) := h.job.queued
+theorem FullInv.nodup {s : State} (h : FullInv s) : ∀ q l, s.qjobs q = some l → l.Nodup := h.job.nodup
+
+theorem fullInv_init (nq ng max : Nat) : FullInv (initState nq ng max) := by
+  refine ⟨jobInv_init nq ng max, ?_, ?_, ?_, ?_, ?_⟩
+  · intro j pq h; simp [initState, State.jobPQ] at h
+  · intro q l h
+    simp only [initState, State.qjobs, List.getElem?_replicate] at h
+    split at h <;> simp at h
+    subst h; exact List.Pairwise.nil
+  · intro j1 j2 a q h; simp [initState, State.jobPQ] at h
+  · intro j q h; simp [initState, State.jobPQ] at h
+  · intro j1 j2 q p1 p2 _ h; simp [initState, State.jobPQ] at h
+
+theorem OrderInvF.congr {J J' Q Q' B B' E E' N N'} (h : OrderInvF J Q B E N) (hJ : ∀ i, J' i = J i) (hQ : ∀ i, Q' i = Q i) (hB : ∀ i, B' i = B i) (hE : ∀ i, E' i = E i) (hN : N' = N) :
+    OrderInvF J' Q' B' E' N' := by
+  have e2 : J' = J := funext hJ
+  have e3 : Q' = Q := funext hQ
+  have e4 : B' = B := funext hB
+  have e5 : E' = E := funext hE
+  rw [e2, e3, e4, e5, hN]; exact h
+
+theorem FullInv.of_eq {s X : State} (h : FullInv s) (hpc : ∀ b, (X.pcAt b).runningQ = (s.pcAt b).runningQ)
+    (hj : ∀ i, X.jobPQ i = s.jobPQ i) (hq : ∀ i, X.qjobs i = s.qjobs i) (hb : ∀ i, X.jobB i = s.jobB i) (he : ∀ i, X.jobE i = s.jobE i)
+    (hn : X.jobs.length = s.jobs.length) : FullInv X :=
+  ⟨JobInv.of_eq h.job hpc hj hq (fun i => by rw [jobOpen_eq, jobOpen_eq, hb, he]), OrderInvF.congr h.ord hj hq hb he hn⟩
+
+theorem FullInv.congr {X Y : State} (h : FullInv Y) (hA : X.acts = Y.acts) (hJ : X.jobs = Y.jobs) (hQ : X.qs = Y.qs) : FullInv X := by
+  refine FullInv.of_eq h ?_ ?_ ?_ ?_ ?_ (by rw [hJ])
+  · intro b; simp only [State.pcAt, hA]
+  · intro i; simp only [State.jobPQ, hJ]
+  · intro i; simp only [State.qjobs, hQ]
+  · intro i; simp only [State.jobB, hJ]
+  · intro i; simp only [State.jobE, hJ]
+
+theorem open_of_be {s X : State} (hb : ∀ i, X.jobB i = true → s.jobB i = true ∨ ∃ a q, s.jobPQ i = some (.held a, q))
+    (he : ∀ i, s.jobE i = true → X.jobE i = true) :
+    ∀ i, X.jobOpen i = true → s.jobOpen i = true ∨ ∃ a q, s.jobPQ i = some (.held a, q) := by
+  intro i hi
+  rw [jobOpen_eq] at hi
+  simp at hi
+  rcases hb i hi.1 with h1 | h1
+  · left
+    rw [jobOpen_eq]
+    simp only [h1, Bool.true_and, Bool.not_eq_eq_eq_not, Bool.not_true]
+    cases hx : s.jobE i with
+    | false => rfl
+    | true => have := he i hx; rw [hi.2] at this; cases this
+  · exact Or.inr h1
+
+theorem FullInv.frame {s X : State} {a : Nat} {pc' : Pc} (h : FullInv s) (hx : HeldExcl s.jobPQ)
+    (hpc : ∀ b, X.pcAt b = s.pcAt b) (hj : ∀ i, X.jobPQ i = s.jobPQ i) (hq : ∀ i, X.qjobs i = s.qjobs i)
+    (hb : ∀ i, X.jobB i = true → s.jobB i = true ∨ ∃ a q, s.jobPQ i = some (.held a, q))
+    (he : ∀ i, s.jobE i = true → X.jobE i = true) (hn : X.jobs.length = s.jobs.length)
+    (hrun : pc'.runningQ = (s.pcAt a).runningQ) : FullInv (X.goto a pc') := by
+  refine ⟨JobInv.frame h.job hpc hj hq (open_of_be hb he) hrun, ?_⟩
+  have h1 : OrderInvF s.jobPQ s.qjobs X.jobB X.jobE s.jobs.length := OrderInvF.frameBE h.job hx h.ord hb he
+  exact OrderInvF.congr h1 (fun i => by rw [jobPQ_goto, hj]) (fun i => by rw [qjobs_goto, hq]) (fun i => by rw [jobB_goto]) (fun i => by rw [jobE_goto])
+    (by rw [show (X.goto a pc').jobs = X.jobs by unfold State.goto; split <;> rfl, hn])
+
+theorem FullInv.frame_setAct {s X : State} {a : Nat} {v : Act} (h : FullInv s) (hx : HeldExcl s.jobPQ)
+    (hpc : ∀ b, X.pcAt b = s.pcAt b) (hj : ∀ i, X.jobPQ i = s.jobPQ i) (hq : ∀ i, X.qjobs i = s.qjobs i)
+    (hb : ∀ i, X.jobB i = true → s.jobB i = true ∨ ∃ a q, s.jobPQ i = some (.held a, q))
+    (he : ∀ i, s.jobE i = true → X.jobE i = true) (hn : X.jobs.length = s.jobs.length)
+    (hrun : v.pc.runningQ = (s.pcAt a).runningQ) : FullInv (X.setAct a v) := by
+  refine ⟨JobInv.frame_setAct h.job hpc hj hq (open_of_be hb he) hrun, ?_⟩
+  have h1 : OrderInvF s.jobPQ s.qjobs X.jobB X.jobE s.jobs.length := OrderInvF.frameBE h.job hx h.ord hb he
+  exact OrderInvF.congr h1 (fun i => by rw [jobPQ_setAct, hj]) (fun i => by rw [qjobs_setAct, hq]) (fun i => by rw [jobB_setAct]) (fun i => by rw [jobE_setAct]) hn
+
+theorem FullInv.retire {s X : State} {a j q : Nat} {pc' : Pc} (h : FullInv s)
+    (hlt : a < X.acts.length) (hpc : ∀ b, X.pcAt b = s.pcAt b) (hold : (s.pcAt a).runningQ = some (j, q))
+    (hj : ∀ i, X.jobPQ i = if i = j then some (.done, q) else s.jobPQ i) (hq : ∀ i, X.qjobs i = s.qjobs i)
+    (hb : ∀ i, X.jobB i = s.jobB i) (he : ∀ i, X.jobE i = if i = j then true else s.jobE i) (hn : X.jobs.length = s.jobs.length)
+    (hnew : pc'.runningQ = none) : FullInv (X.goto a pc') := by
+  refine ⟨JobInv.retire (ph := .done) h.job hlt hpc hold (by intro c; simp) (by simp) hj hq ?_ hnew, ?_⟩
+  · intro i
+    rw [jobOpen_eq, jobOpen_eq, hb, he]
+    split <;> simp
+  · have h1 : OrderInvF X.jobPQ s.qjobs s.jobB X.jobE s.jobs.length := OrderInvF.retire h.job h.ord hold hj he
+    exact OrderInvF.congr h1 (fun i => by rw [jobPQ_goto]) (fun i => by rw [qjobs_goto, hq]) (fun i => by rw [jobB_goto, hb]) (fun i => by rw [jobE_goto]) (by rw [jobs_goto, hn])
+
+theorem FullInv.requeue {s X : State} {a j q : Nat} {l0 : List Nat} {pc' : Pc} (h : FullInv s) (hx : HeldExcl s.jobPQ)
+    (hlt : a < X.acts.length) (hpc : ∀ b, X.pcAt b = s.pcAt b) (hold : (s.pcAt a).runningQ = some (j, q)) (hq0 : s.qjobs q = some l0)
+    (hj : ∀ i, X.jobPQ i = if i = j then some (.queued, q) else s.jobPQ i)
+    (hq : ∀ i, X.qjobs i = if i = q then some (j :: l0) else s.qjobs i)
+    (hb : ∀ i, X.jobB i = s.jobB i) (he : ∀ i, X.jobE i = s.jobE i) (hn : X.jobs.length = s.jobs.length)
+    (hnew : pc'.runningQ = none) : FullInv (X.goto a pc') := by
+  refine ⟨JobInv.requeue h.job hx hlt hpc hold hq0 hj hq (fun i => by rw [jobOpen_eq, jobOpen_eq, hb, he]) hnew, ?_⟩
+  have h1 : OrderInvF X.jobPQ X.qjobs s.jobB s.jobE s.jobs.length := OrderInvF.requeue h.job hx h.ord hold hq0 hj hq
+  exact OrderInvF.congr h1 (fun i => by rw [jobPQ_goto]) (fun i => by rw [qjobs_goto]) (fun i => by rw [jobB_goto, hb]) (fun i => by rw [jobE_goto, he]) (by rw [jobs_goto, hn])
+
+theorem FullInv.take {s X : State} {a j q : Nat} {rest : List Nat} {pc' : Pc} (h : FullInv s)
+    (hlt : a < X.acts.length) (hpc : ∀ b, X.pcAt b = s.pcAt b) (hidle : (s.pcAt a).runningQ = none)
+    (hhead : s.qjobs q = some (j :: rest))
+    (hj : ∀ i, X.jobPQ i = if i = j then some (.held a, q) else s.jobPQ i)
+    (hq : ∀ i, X.qjobs i = if i = q then some rest else s.qjobs i)
+    (hb : ∀ i, X.jobB i = s.jobB i) (he : ∀ i, X.jobE i = s.jobE i) (hn : X.jobs.length = s.jobs.length)
+    (hnew : pc'.runningQ = some (j, q)) : FullInv (X.goto a pc') := by
+  refine ⟨JobInv.take h.job hlt hpc hidle hhead hj hq (fun i => by rw [jobOpen_eq, jobOpen_eq, hb, he]) hnew, ?_⟩
+  have h1 : OrderInvF X.jobPQ X.qjobs s.jobB s.jobE s.jobs.length := OrderInvF.take h.job h.ord hhead hj hq
+  exact OrderInvF.congr h1 (fun i => by rw [jobPQ_goto]) (fun i => by rw [qjobs_goto]) (fun i => by rw [jobB_goto, hb]) (fun i => by rw [jobE_goto, he]) (by rw [jobs_goto, hn])
+
+theorem FullInv.newHeld {s X : State} {a q : Nat} {pc' : Pc} (h : FullInv s)
+    (hlt : a < X.acts.length) (hpc : ∀ b, X.pcAt b = s.pcAt b) (hidle : (s.pcAt a).runningQ = none)
+    (hempty : s.qjobs q = some []) (hnoh : ∀ j a', s.jobPQ j ≠ some (.held a', q))
+    (hj : ∀ i, X.jobPQ i = if i = s.jobs.length then some (.held a, q) else s.jobPQ i) (hq : ∀ i, X.qjobs i = s.qjobs i)
+    (hb : ∀ i, i ≠ s.jobs.length → X.jobB i = s.jobB i) (he : ∀ i, i ≠ s.jobs.length → X.jobE i = s.jobE i)
+    (hn : X.jobs.length = s.jobs.length + 1)
+    (hnew : pc'.runningQ = some (s.jobs.length, q)) : FullInv (X.goto a pc') := by
+  refine ⟨JobInv.newHeld h.job hlt hpc hidle (jobPQ_fresh s) hempty hj hq (fun i hi => by rw [jobOpen_eq, jobOpen_eq, hb i hi, he i hi]) hnew, ?_⟩
+  have hnoq : ∀ j, s.jobPQ j ≠ some (.queued, q) := by
+    intro j hq'
+    obtain ⟨l, hl, hm⟩ := h.job.member j q hq'
+    rw [hempty] at hl; simp at hl; subst hl; cases hm
+  have h1 : OrderInvF X.jobPQ s.qjobs X.jobB X.jobE (s.jobs.length + 1) :=
+    OrderInvF.newHeld h.ord (fun i hi => jobPQ_none_of_ge s i hi) hnoq hnoh hj hb he
+  exact OrderInvF.congr h1 (fun i => by rw [jobPQ_goto]) (fun i => by rw [qjobs_goto, hq]) (fun i => by rw [jobB_goto]) (fun i => by rw [jobE_goto]) (by rw [jobs_goto, hn])
+
+theorem FullInv.newQueued {s X : State} {a q : Nat} {l0 : List Nat} {pc' : Pc} (h : FullInv s)
+    (hpc : ∀ b, X.pcAt b = s.pcAt b) (hq0 : s.qjobs q = some l0)
+    (hj : ∀ i, X.jobPQ i = if i = s.jobs.length then some (.queued, q) else s.jobPQ i)
+    (hq : ∀ i, X.qjobs i = if i = q then some (l0 ++ [s.jobs.length]) else s.qjobs i)
+    (hb : ∀ i, X.jobB i = s.jobB i) (he : ∀ i, X.jobE i = s.jobE i) (hn : X.jobs.length = s.jobs.length + 1)
+    (hrun : pc'.runningQ = (s.pcAt a).runningQ) : FullInv (X.goto a pc') := by
+  have hbN : s.jobB s.jobs.length = false := jobB_fresh s _ (Nat.le_refl _)
+  have heN : s.jobE s.jobs.length = false := jobE_fresh s _ (Nat.le_refl _)
+  refine ⟨JobInv.newQueued h.job hpc (jobPQ_fresh s) hq0 hj hq ?_ hrun, ?_⟩
+  · intro i
+    rw [jobOpen_eq, jobOpen_eq, hb, he]
+    split
+    · next e => rw [e, hbN]; rfl
+    · rfl
+  · have h1 : OrderInvF X.jobPQ X.qjobs X.jobB X.jobE (s.jobs.length + 1) :=
+      OrderInvF.newQueued h.job h.ord (fun i hi => jobPQ_none_of_ge s i hi) hq0 hj hq
+        (B' := X.jobB) (E' := X.jobE) (fun i => by rw [hb]; by_cases e : i = s.jobs.length <;> simp [e, hbN]) (fun i _ => he i)
+    exact OrderInvF.congr h1 (fun i => by rw [jobPQ_goto]) (fun i => by rw [qjobs_goto]) (fun i => by rw [jobB_goto]) (fun i => by rw [jobE_goto]) (by rw [jobs_goto, hn])
+
+/-- side conditions of `frame` for a `setJob` -/
+theorem hb_setJob_keep {s : State} {j : Nat} {b v : Job} (hj : s.jobs[j]? = some b) (hk : v.begun = b.begun) :
+    ∀ i, (s.setJob j v).jobB i = true → s.jobB i = true ∨ ∃ a q, s.jobPQ i = some (.held a, q) := by
+  intro i hi
+  rw [jobB_setJob_of hj] at hi
+  split at hi
+  · next e => rw [e, jobB_of hj, ← hk]; exact Or.inl hi
+  · exact Or.inl hi
+
+theorem hb_setJob_held {s : State} {j : Nat} {b v : Job} (hj : s.jobs[j]? = some b) (hh : ∃ a q, s.jobPQ j = some (.held a, q)) :
+    ∀ i, (s.setJob j v).jobB i = true → s.jobB i = true ∨ ∃ a q, s.jobPQ i = some (.held a, q) := by
+  intro i hi
+  rw [jobB_setJob_of hj] at hi
+  split at hi
+  · next e => rw [e]; exact Or.inr hh
+  · exact Or.inl hi
+
+theorem he_setJob {s : State} {j : Nat} {b v : Job} (hj : s.jobs[j]? = some b) (hk : b.ended = true → v.ended = true) :
+    ∀ i, s.jobE i = true → (s.setJob j v).jobE i = true := by
+  intro i hi
+  rw [jobE_setJob_of hj]
+  split
+  · next e => rw [e, jobE_of hj] at hi; exact hk hi
+  · exact hi
 
 end Desync
